@@ -1,32 +1,88 @@
 #!/venv/bin/python
 """Developer tool (not a registered check): run every seeded change under seeded/ through
-seedtest.py with the checks named in its meta.json and summarise which are caught."""
+seedtest.py with the checks named in its meta.json and summarise which are caught.
+
+  seedall.py [names...]          sequentially on /repo (the way a check is used)
+  VERIF_JOBS=6 seedall.py ...    in parallel, each worker on its own scratch git worktree of /repo under /tmp
+                                 (VERIF_REPO tells seedtest.py and the checks which tree to use; the proof gate is
+                                 skipped in that mode - concurrent `lake build`s would fight over the build lock)
+"""
+import concurrent.futures
 import glob
 import json
 import os
+import queue
 import subprocess
 import sys
 
 VERIF = os.path.dirname(os.path.dirname(os.path.abspath(__file__)))
 only = sys.argv[1:]
-rows = []
-for d in sorted(glob.glob(os.path.join(VERIF, "seeded", "*", ""))):
+JOBS = int(os.environ.get("VERIF_JOBS", "1"))
+
+
+def run_one(d, repo=None):
     key = os.path.basename(d.rstrip("/"))
-    if only and key not in only:
-        continue
     meta = json.load(open(os.path.join(d, "meta.json")))
     checks = meta.get("run_checks") or [meta["breaks_property"]]
+    env = dict(os.environ)
+    if repo:
+        env.update(VERIF_REPO=repo, VERIF_NO_BUILD="1", VERIF_SEEDTEST_EVIDENCE="/tmp/seedtest_evidence_%s" % os.path.basename(repo))
     p = subprocess.run(["/venv/bin/python", os.path.join(VERIF, "harness", "seedtest.py"), os.path.join(d, "patch.diff"),
-                        os.path.join(d, "demo.py")] + checks, stdout=subprocess.PIPE, stderr=subprocess.STDOUT)
+                        os.path.join(d, "demo.py")] + checks, stdout=subprocess.PIPE, stderr=subprocess.STDOUT, env=env)
     out = p.stdout.decode()
     caught = [c for c in checks if ("%s = {'rc': 1" % c) in out]
-    applies = "patch does not apply" not in out
+    infra = [c for c in checks if ("%s = {'rc': 2" % c) in out]
+    applies = "patch does not apply" not in out and "refusing" not in out
     demo = "demo_patched = 1" in out and "demo_clean = 0" in out
     base = "baseline_rc = 0" in out or bool(os.environ.get("VERIF_SKIP_BASELINE"))
-    rows.append((key, applies, demo, base, caught, checks))
-    print("%-8s applies=%s demo_fails_only_when_patched=%s suite_passes=%s caught_by=%s of %s" % rows[-1]
-          + ("" if meta["breaks_property"] in caught else "   (NOT by the check of %s)" % meta["breaks_property"]))
-    sys.stdout.flush()
-bad = [r for r in rows if not (r[1] and r[2] and r[3] and r[4])]
-print("%d seeded changes, %d not caught / stale" % (len(rows), len(bad)))
-sys.exit(1 if bad else 0)
+    row = (key, applies, demo, base, caught, checks)
+    line = ("%-8s applies=%s demo_fails_only_when_patched=%s suite_passes=%s caught_by=%s of %s" % row
+            + ("" if meta["breaks_property"] in caught else "   (NOT by the check of %s)" % meta["breaks_property"])
+            + ("   INFRA in %s" % infra if infra else ""))
+    return row, line
+
+
+def main():
+    dirs = [d for d in sorted(glob.glob(os.path.join(VERIF, "seeded", "*", "")))
+            if os.path.exists(os.path.join(d, "meta.json")) and (not only or os.path.basename(d.rstrip("/")) in only)]
+    rows = []
+    if JOBS <= 1:
+        for d in dirs:
+            row, line = run_one(d)
+            rows.append(row)
+            print(line)
+            sys.stdout.flush()
+    else:
+        trees = queue.Queue()
+        made = []
+        for i in range(JOBS):
+            t = "%s_%d" % (os.environ.get("VERIF_TREES", "/tmp/seedrepo"), i)
+            subprocess.run(["git", "-C", "/repo", "worktree", "remove", "--force", t], stdout=subprocess.DEVNULL, stderr=subprocess.DEVNULL)
+            subprocess.run(["git", "-C", "/repo", "worktree", "add", "--detach", t], check=True, stdout=subprocess.DEVNULL, stderr=subprocess.DEVNULL)
+            made.append(t)
+            trees.put(t)
+
+        def job(d):
+            t = trees.get()
+            try:
+                return run_one(d, repo=t)
+            finally:
+                trees.put(t)
+
+        try:
+            with concurrent.futures.ThreadPoolExecutor(JOBS) as ex:
+                for row, line in ex.map(job, dirs):
+                    rows.append(row)
+                    print(line)
+                    sys.stdout.flush()
+        finally:
+            for t in made:
+                subprocess.run(["git", "-C", "/repo", "worktree", "remove", "--force", t], stdout=subprocess.DEVNULL, stderr=subprocess.DEVNULL)
+                subprocess.run(["rm", "-rf", "/tmp/seedtest_evidence_%s" % os.path.basename(t)])
+    bad = [r for r in rows if not (r[1] and r[2] and r[3] and r[4])]
+    print("%d seeded changes, %d not caught / stale" % (len(rows), len(bad)))
+    return 1 if bad else 0
+
+
+if __name__ == "__main__":
+    sys.exit(main())
